@@ -15,6 +15,13 @@ def infer(vs, k):
     return shrink_types([get_type(v, k) for v in vs], k)
 
 
+def infer_via_store(vs, k):
+    """as the pipeline really merges: per-value types are encoded at trace time, decoded when a stub is wanted, and only
+    then merged"""
+    from monkeytype.encoding import type_from_json, type_to_json
+    return shrink_types([type_from_json(type_to_json(get_type(v, k))) for v in vs], k)
+
+
 def nontrivial(specs, k):
     shapes = {vals.shape_of(s).split(":")[0] if not s[0] == "lit" else vals.shape_of(s) for s in specs}
     has_dict = any('"dict"' in repr(s).replace("'", '"') for s in specs)
